@@ -104,11 +104,13 @@ def run(peak_f, vw, vp, rows, mc_peak, n, max_iterations, dist_fn, dist_mc):
         d_a = abs(m_a - pk_a)
         rec.update(mean_fn_after=m_a, std_fn_after=s_a, mc_peak_frq_after=pk_a)
         trace.append(rec)
+        # whether one of these is EXACTLY zero depends on summation order (fsum gives 0 where a
+        # running sum gives 2e-16): any value within rounding of zero makes the call knife-edge.
+        if _near(d_b, 0.0, m_b) or _near(s_b, 0.0, 1.0) or _near(s_a, 0.0, 1.0):
+            knife = True
         if d_b == 0 or s_b == 0 or s_a == 0:
             rec["stop"] = "zero"
             return dict(iterations=it, vw=vw, vp=vp, trace=trace, knife=knife, stop="zero")
-        if _near(d_b, 0.0, m_b) or _near(s_b, 0.0, 1.0) or _near(s_a, 0.0, 1.0):
-            knife = True
         d_diff = abs(d_a - d_b) / d_b
         s_diff = abs(s_a - s_b)
         rec.update(d_diff=d_diff, s_diff=s_diff)
